@@ -18,7 +18,7 @@ import (
 func init() { mon.Register("C07", buildC07) }
 
 var reDecimal = regexp.MustCompile(`^[+-]?[0-9]{1,18}$`)
-var reFloatLit = regexp.MustCompile(`^[+-]?[0-9]{1,15}(\.[0-9]{1,6})?$`)
+var reFloatLit = regexp.MustCompile(`^[+-]?[0-9]{1,15}(\.[0-9]{1,30})?$`)
 
 func manager(name string) variants.IVariantOperations {
 	if name == "safe" {
@@ -155,6 +155,13 @@ func c07Exec(c *mon.Case) {
 			}
 		}
 	}
+	// a text that is a duration literal of the host language denotes that duration
+	if v.T == "S" && T == "P" {
+		if d, perr := time.ParseDuration(v.V); perr == nil && got.Span() != d {
+			c.Failf("a duration text is not converted to the time span it spells", "%s -> %s, expected %s", desc, got, vSpan(d))
+			return
+		}
+	}
 	// numeric widenings have an exact meaning in the host language
 	wide := map[string]Val{}
 	switch v.T {
@@ -216,6 +223,9 @@ func c07Exec(c *mon.Case) {
 }
 
 func buildC07(cfg *mon.Config) []*mon.Sub {
+	if loc, err := time.LoadLocation(c08Zone); err == nil {
+		time.Local = loc // see C08: local time is not accidentally UTC
+	}
 	emitAll := func(emit func(string), v Val) {
 		j := encVals(v)
 		for _, m := range []string{"unsafe", "safe"} {
@@ -339,5 +349,112 @@ func buildC07(cfg *mon.Config) []*mon.Sub {
 			c.NonTrivial()
 		},
 	}
-	return []*mon.Sub{pool, rnd, reuse}
+	special := &mon.Sub{
+		Name: "date-times-in-a-summer-time-zone-and-odd-objects", Rule: "(a) the process zone and the values' zone are Europe/Berlin (embedded tz database): instants every 15 minutes within three hours of every switch to and from summer time 2015..2030, with 0, 1 and 500 000 000 nanoseconds, converted to Integer and Long by the type-unsafe manager must give the Unix second of the instant, and back the same instant; (b) objects that are typed nil pointers, a nil error value inside an interface, and arrays holding a position without a variant are converted to every target by both managers: exactly one of result and error, a result of exactly the requested type, the operand left as it was (a position without a variant stays one), safe and unsafe manager in agreement where both succeed",
+		Exhaustive: true, DistinctByGen: true, Floor: 100,
+		Gen: func(emit func(string)) {
+			for y := 2015; y <= 2030; y++ {
+				for _, m := range []time.Month{time.March, time.October} {
+					emit(fmt.Sprintf("dst %d %d", y, int(m)))
+				}
+			}
+			for k := 0; k < 5; k++ {
+				for _, T := range allTags {
+					emit(fmt.Sprintf("odd %d %s", k, T))
+				}
+			}
+		},
+		Exec: func(c *mon.Case) {
+			c.NonTrivial()
+			var y, m, k int
+			var T string
+			if n, _ := fmt.Sscanf(c.Payload, "dst %d %d", &y, &m); n == 2 {
+				loc, err := time.LoadLocation("Europe/Berlin")
+				if err != nil {
+					c.Count("no tz database")
+					return
+				}
+				sw := time.Date(y, time.Month(m), lastSunday(y, time.Month(m)), 1, 0, 0, 0, time.UTC) // both switches happen at 01:00 UTC
+				ops := manager("unsafe")
+				for q := -12; q <= 12; q++ {
+					for _, ns := range []int{0, 1, 500000000} {
+						t := sw.Add(time.Duration(q)*15*time.Minute + time.Duration(ns)).In(loc)
+						for _, target := range []variants.VariantType{variants.Integer, variants.Long} {
+							var r, back *variants.Variant
+							var e1, e2 error
+							if p := mon.Try(func() {
+								if r, e1 = ops.Convert(variants.VariantFromDateTime(t), target); e1 == nil {
+									back, e2 = ops.Convert(r, variants.DateTime)
+								}
+							}); p != nil {
+								c.FailPanic("unsafe Convert", p)
+								return
+							}
+							if e1 != nil || r == nil || snap(r).Long() != t.Unix() {
+								c.Failf("a date-time is not converted to its Unix second", "Convert(%s in Europe/Berlin, %v) -> %v %v, expected %d", t.Format(time.RFC3339Nano), target, snap(r), e1, t.Unix())
+								return
+							}
+							if ns == 0 && (e2 != nil || back == nil || !back.AsDateTime().Equal(t)) {
+								c.Failf("conversion DateTime -> Long -> DateTime does not round-trip", "%s in Europe/Berlin -> %v -> %v (%v)", t.Format(time.RFC3339Nano), snap(r), snap(back), e2)
+								return
+							}
+						}
+					}
+				}
+				c.AddEvals(149, 149)
+				return
+			}
+			fmt.Sscanf(c.Payload, "odd %d %s", &k, &T)
+			mk := func() *variants.Variant {
+				switch k {
+				case 0:
+					return variants.NewVariant((*int)(nil))
+				case 1:
+					return variants.NewVariant((*opaque)(nil))
+				case 2:
+					var e error = (*customErr)(nil)
+					return variants.NewVariant(e)
+				case 3:
+					return variants.VariantFromArray([]*variants.Variant{nil})
+				}
+				return variants.VariantFromArray([]*variants.Variant{variants.VariantFromInteger(1), nil, variants.VariantFromString("three")})
+			}
+			shape := func(v *variants.Variant) string {
+				s := fmt.Sprintf("type %d", v.Type())
+				if v.Type() == variants.Array {
+					for _, e := range v.AsArray() {
+						s += " " + snap(e).String()
+					}
+				}
+				return s
+			}
+			var results [2]*variants.Variant
+			var errs [2]error
+			for i, mn := range []string{"unsafe", "safe"} {
+				in := mk()
+				before := shape(in)
+				if p := mon.Try(func() { results[i], errs[i] = manager(mn).Convert(in, tagType[T]) }); p != nil {
+					c.FailPanic(mn+" Convert", p)
+					return
+				}
+				desc := fmt.Sprintf("%s manager Convert(odd value #%d [%s], %s)", mn, k, before, typeNames[T])
+				if (results[i] == nil) == (errs[i] == nil) {
+					c.Failf(mn+" Convert returns neither or both of result and error", "%s -> result=%v err=%v", desc, results[i], errs[i])
+					return
+				}
+				if after := shape(in); after != before {
+					c.Failf(mn+" Convert modified its operand", "%s: operand is now [%s]", desc, after)
+					return
+				}
+				if errs[i] == nil && T != "O" && results[i].Type() != tagType[T] {
+					c.Failf(mn+" Convert succeeds with a value of another type than requested", "%s -> type %d", desc, results[i].Type())
+					return
+				}
+			}
+			if errs[0] == nil && errs[1] == nil && shape(results[0]) != shape(results[1]) {
+				c.Failf("type-safe and type-unsafe manager disagree on a conversion both perform", "odd value #%d to %s: unsafe [%s], safe [%s]", k, typeNames[T], shape(results[0]), shape(results[1]))
+			}
+		},
+	}
+	return []*mon.Sub{pool, rnd, reuse, special}
 }
